@@ -8,7 +8,7 @@ import json
 import logging
 import re
 
-from .common import Ctx, Driver
+from .common import Ctx, Driver, CORPUS
 
 MANIFEST = dict(
     text=("Lean theorems over the tables generated from the live bs4: for each of the 32 bytes 0x80-0x9F, the three carrier "
@@ -31,6 +31,8 @@ MANIFEST = dict(
 )
 
 MODES = [None, "xml", "html", "ascii"]
+# "the three encodings treated as smart-quote carriers" (property text; dammit.py:924-928)
+DOCUMENTED_CARRIERS = ["windows-1252", "iso-8859-1", "iso-8859-2"]
 NON_CARRIERS = ["latin-1", "cp1252", "iso-8859-5"]
 XML_REF = re.compile(r"&#x([0-9A-Fa-f]+);\Z")
 HTML_REF = re.compile(r"&#?\w+;\Z")
@@ -72,8 +74,10 @@ def markup_line(data, enc, mode):
 
 
 def carriers():
+    """The documented three, plus whatever else the live list names (if CPython knows the codec as a single-byte one we generated)."""
     from bs4.dammit import UnicodeDammit
-    return list(UnicodeDammit.ENCODINGS_WITH_SMART_QUOTES)
+    extra = [e for e in UnicodeDammit.ENCODINGS_WITH_SMART_QUOTES if e not in DOCUMENTED_CARRIERS and e in NON_CARRIERS]
+    return DOCUMENTED_CARRIERS + extra
 
 
 def smart_oracle(b: int, enc: str, mode, out):
@@ -298,6 +302,22 @@ def run(ctx: Ctx):
                             ctx.violation("surrounding text changed by the smart-quote conversion", case=c2,
                                           expected=pre.decode() + u + post.decode(), observed=u2, stream="smart-exhaustive")
     ctx.extra["undefined_cp1252_bytes_observed"] = undefined_record
+    corpus = [json.load(open(f)) | {"file": f.name} for f in sorted((CORPUS / "C19").glob("*.json"))]
+    for v in corpus:
+        c = v["case"]
+        if c.get("op") != "smart":
+            continue
+        data, enc, mode = bytes(c["bytes"]), c["enc"], c["mode"]
+        u, repl = real_markup(data, enc, mode)
+        lines.append(markup_line(data, enc, mode)); impl.append(show_markup(u, repl)); cases.append(c)
+        ctx.case(("corpus", v["file"]))
+        ctx.count("corpus:smart")
+        if enc in car and mode is not None:
+            want, badb = whole_input_oracle(data, enc, mode, lambda b, e, m: real_markup(bytes([b]), e, m)[0])
+            if u != want or badb:
+                ctx.violation(f"corpus {v['file']}: conversion of byte(s) {[hex(b) for b in badb]} does not denote their Windows-1252 character",
+                              case=c, expected=want if not badb else "each byte 0x80-0x9F replaced by a reference to its cp1252 character",
+                              observed=u, stream="corpus")
     ctx.exhaustive_parts.append(f"smart quotes: 32 bytes x 4 modes x {len(encs)} encodings ({', '.join(encs)}), alone and (carriers) in two contexts")
 
     # the un-escaper of the theorems vs html.unescape, on every reference the live table can emit
@@ -473,6 +493,13 @@ def run(ctx: Ctx):
         ctx.count(f"detwingle:interleaving:{'emb' if has_b else 'noemb'}+{'multibyte' if has_mb else 'ascii'}")
         det_case(data, stream, key=("C2", data) if has_b else None, expect_text=text, pieces=[f"{k}{v}" for k, v in ps], sample=(idx < 2))
 
+    for v in corpus:
+        c = v["case"]
+        if c.get("op") == "detwingle" and "pieces" in c:
+            ps = [(p[0], int(p[1:])) for p in c["pieces"]]
+            if all((k == "b" and v_ in conv) or (k == "c" and is_scalar(v_)) for k, v_ in ps):
+                run_pieces(ps, "corpus", 99)
+                ctx.count("corpus:detwingle")
     if conv:
         for b in conv:
             for j in range(ctx.n(3, 12)):
